@@ -268,6 +268,8 @@ func propC10() *PropSpec {
 			js = append(js, jobsN("css", "VerifCSSDeclTotal", pick(rng(0, 1), rng(0, 2)), "css: a{P:F(ARG<end> for 14 properties x 10 functions x 5 endings, ARG = n bytes over a punctuation alphabet")...)
 			js = append(js, jobsN("css", "VerifCSSKeywordTotal", pick(rng(1, 3), rng(1, 4)), "css: a{P:W1..Wn} for 16 shorthand properties x 24 (n>=3: 12) keywords/values/separators: no panic")...)
 			js = append(js, jobsN("svg", "VerifSVGTruncated", []int{0}, "svg: every prefix of document templates")...)
+			js = append(js, jobsN("html", "VerifHTMLTruncated", []int{0}, "html: every prefix of two documents (all token kinds, attributes in every quoting style)")...)
+			js = append(js, jobsN("svg", "VerifSVGViewBox", pick(rng(0, 5), rng(0, 6)), "svg: viewBox of n bytes over digits and separators: any number of values")...)
 			js = append(js, jobsN("svg", "VerifSVGTotal", pick(rng(0, 4), rng(0, 5)), "svg.Minify(arbitrary bytes)")...)
 			js = append(js, jobsN("html", "VerifHTMLAttrURL", pick(rng(4, 5), rng(4, 6)), "html: <tag urlattr=\"V\">, V = n bytes over a URL-scheme alphabet (panic freedom on template-shaped input)")...)
 			js = append(js, jobsN("js", "VerifJSTotal", pick(rng(0, 2), rng(0, 3)), "js.Minify(arbitrary bytes)")...)
@@ -298,6 +300,8 @@ func propC09() *PropSpec {
 			js = append(js, jobsN("xml", "VerifXMLUnits", rng(1, 3), "xml: output well-formed for ]]> fragments in text and across CDATA sections")...)
 			js = append(js, jobsN("css", "VerifCSSImport", rng(0, 3), "css: @import URL stays a well-formed string")...)
 			js = append(js, jobsN("css", "VerifCSSFuncArgs", []int{0}, "css: argument tokens never fuse (output parses to the same tokens)")...)
+			js = append(js, jobsN("js", "VerifJSNullish", []int{0}, "js: nullish / optional call / Math.pow patterns (also under unary and ** operators): output parses again")...)
+			js = append(js, jobsN("css", "VerifCSSDataURL", rng(1, 2), "css: url() around a re-encoded data URI stays one well-formed token")...)
 			js = append(js, jobsN("json", "VerifJSONValue", pick(rng(1, 4), rng(1, 5)), "json: RFC-valid input => RFC-valid output (reference recogniser)")...)
 			js = append(js, jobsN("xml", "VerifXMLText", pick(rng(0, 2), rng(0, 3)), "xml: well-formed input => well-formed output (reference reader)")...)
 			js = append(js, jobsN("xml", "VerifXMLAttr", pick(rng(0, 3), rng(0, 4)), "xml: well-formed input => well-formed output (reference reader)")...)
@@ -340,6 +344,7 @@ func propC03() *PropSpec {
 			js = append(js, jobsN("html", "VerifHTMLPre", pick(rng(0, 3), rng(0, 5)), "pre/textarea content untouched")...)
 			js = append(js, jobsN("html", "VerifHTMLTree", pick(rng(1, 3), rng(1, 4)), "conforming trees built by n symbolic actions over 13 element kinds + text + comments; reference tree builder on input and output")...)
 			js = append(js, jobsN("html", "VerifHTMLTreeWitness", []int{0}, "recorded witnesses of known findings of the tree harness")...)
+			js = append(js, jobsN("html", "VerifHTMLCaseAttr", pick(rng(0, 2), rng(0, 3)), "20 tag/attribute pairs with case-sensitive values (list type, form values, labels, ids): value kept exactly")...)
 			js = append(js, jobsN("html", "VerifHTMLPInContainer", []int{0}, "<X><p>a</p>TAIL</X>b for 14 containers (custom elements, transparent content, flow) x 3 tails: </p> omitted only where the end tag closes the paragraph")...)
 			js = append(js, jobsN("html", "VerifHTMLStartTags", []int{0}, "html/head/body/colgroup start tags with and without attributes")...)
 			js = append(js, Job{Pkg: "html", Fn: "VerifHTMLTwin", N: 0, ExpectFail: true, Desc: "vacuity twin"})
@@ -377,6 +382,7 @@ func propC04() *PropSpec {
 			js = append(js, jobsN("css", "VerifCSSFuncArgs", []int{0}, "fn(A1 SEP A2): 9 x 9 signed/unsigned numbers and dimensions x 5 separators x 4 functions: tokens never fuse")...)
 			js = append(js, jobsN("css", "VerifCSSCustomProp", pick(rng(1, 4), rng(1, 5)), "a{--x:V}: custom property value kept byte for byte")...)
 			js = append(js, jobsN("css", "VerifCSSBackgroundLayers", []int{0}, "background with two layers of <= 3 words (image, box keywords): origin and clip per layer")...)
+			js = append(js, jobsN("css", "VerifCSSDataURL", pick(rng(1, 3), rng(1, 4)), "url(Q data:text/plain,<n units> Q): one well-formed url(), same payload")...)
 			js = append(js, jobsN("css", "VerifCSSBox", rng(1, 4), "margin/padding/border-width/inset with n values")...)
 			js = append(js, jobsN("css", "VerifCSSBgPos", rng(1, 4), "background-position with n tokens")...)
 			js = append(js, jobsN("css", "VerifCSSFlex", rng(1, 3), "flex with n tokens")...)
@@ -421,6 +427,8 @@ func propC01() *PropSpec {
 			js = append(js, jobsN("js", "VerifJSNullish", []int{0}, "21 nullish / optional-chaining / optional-call patterns: same behaviour on symbolic parameter values (also C16)")...)
 			js = append(js, jobsN("js", "VerifJSArith", pick([]int{1, 2}, []int{1, 2, 3}), "x = T1 o1 T2 .. with operands a / numbers / digit strings, operators + - *, optional parentheses; reference ToNumber/ToString arithmetic")...)
 			js = append(js, jobsN("js", "VerifJSCallOrder", []int{0, 1}, "host calls inside 52 expression wrappers x 18 statement contexts, and in parameter defaults / declaration lists: never dropped, duplicated or reordered")...)
+			js = append(js, jobsN("js", "VerifJSBoolCoerce", []int{0}, "!!(E), E?true:false, E?Y:false ... with E = A op B over comparisons, negations and plain values: coercion only dropped for boolean E")...)
+			js = append(js, jobsN("js", "VerifJSDanglingElse", []int{0}, "9 nested if / else-if shapes x 3 body sets (blocks with lexical declarations): every else stays with its if")...)
 			return js
 		},
 	}
@@ -479,6 +487,7 @@ func propC11() *PropSpec {
 			js = append(js, jobsN("html", "VerifHTMLEmbedAttr", pick(rng(1, 3), rng(1, 4)), "style / onclick attributes, payload n bytes")...)
 			js = append(js, jobsN("html", "VerifHTMLEventScheme", pick(rng(0, 3), rng(0, 4)), "onclick=\"javascript:<n bytes>\": scheme stripped, payload (possibly empty) dispatched")...)
 			js = append(js, jobsN("html", "VerifHTMLEmbedDataURI", pick(rng(1, 3), rng(1, 4)), "data: URIs in img src / link href with and without parameters")...)
+			js = append(js, jobsN("css", "VerifCSSDataURL", rng(1, 3), "css host: data URI inside url(), unquoted or in either quote: re-encoded payload stays correctly quoted for CSS")...)
 			js = append(js, jobsN("svg", "VerifSVGEmbed", pick(rng(1, 3), rng(1, 4)), "svg style element (plain / CDATA) and style attribute, svg called with and without the inline parameter")...)
 			js = append(js, Job{Pkg: "html", Fn: "VerifHTMLTwin", N: 0, ExpectFail: true, Desc: "vacuity twin"})
 			return js
@@ -559,6 +568,7 @@ func propC02() *PropSpec {
 			js = append(js, jobsN("js", "VerifJSRenameChain", []int{0, 1}, "0: three nested functions with parameters; 1: four nested parameterless functions/arrows around one outer variable")...)
 			js = append(js, jobsN("js", "VerifJSRenameBlocks", []int{0}, "blocks nested three deep: lexical bindings per level x hoisted vars in the innermost block x use counts")...)
 			js = append(js, jobsN("js", "VerifJSRenameWith", []int{0}, "with-function built from 3 of 11 parts (methods, getters, classes, nested functions; catch/for/block/switch scopes with `with`)")...)
+			js = append(js, jobsN("js", "VerifJSRenameShapes", []int{0}, "13 scope shapes (dissolved else-blocks in switch / loops / labels, catch parameters, default parameters, named function expressions, class static blocks) x 4 target versions")...)
 			js = append(js, Job{Pkg: "js", Fn: "VerifJSEvalTwin", N: 0, ExpectFail: true, Desc: "vacuity twin"})
 			return js
 		},
@@ -620,6 +630,7 @@ func propC13() *PropSpec {
 			for _, n := range []int{0, 1} {
 				js = append(js, Job{Pkg: ".", Fn: "VerifRegistrySharedState", N: n, NoNative: true, Desc: "write-set monitor: 5 entry points x 9 media types on a registry with literal and pattern entries"})
 			}
+			js = append(js, jobsN(".", "VerifResultStable", rng(0, 2), "a Bytes / String result is not touched by later calls (sync.Pool modelled as a LIFO free list)")...)
 			js = append(js, Job{Pkg: ".", Fn: "VerifDispatchTwin", N: 0, ExpectFail: true, Desc: "vacuity twin"})
 			return js
 		},
